@@ -3,8 +3,9 @@
    excluded by a guard, and Print Assumptions. *)
 From Coq Require Import ZArith List Bool Lia.
 From Coq.Strings Require Import Byte.
-From Verif Require Import Lib.Bytes Model.Wire Crypto.Sha256 Model.TxCodec Model.BlockCodec
-  Proofs.TxCodecSpec Proofs.TxCodecLib Proofs.BlockCodec Gen.GenFuncs Glue.WireGlue.
+From Verif Require Import Lib.Bytes Model.Wire Crypto.Sha256 Model.TxCodec Model.BlockCodec Model.TxStrict
+  Proofs.TxCodecSpec Proofs.TxCodecLib Proofs.BlockCodec Proofs.BlockSession Proofs.TxCodecStrict
+  Gen.GenFuncs Glue.WireGlue.
 Import ListNotations.
 Open Scope Z_scope.
 
@@ -56,6 +57,83 @@ Theorem target_exact : forall bits,
   0 <= bits < 2 ^ 32 -> 3 <= bits / 2 ^ 24 -> bits mod 2 ^ 24 < 2 ^ 23 ->
   lib_target (be_bytes 4 bits) = Some (spec_target bits).
 Proof. exact target_exact_proof. Qed.
+
+Theorem target_signed_exact : forall bits,
+  0 <= bits < 2 ^ 32 -> 3 <= bits / 2 ^ 24 -> bits mod 2 ^ 24 < 2 ^ 23 ->
+  lib_target (be_bytes 4 bits) = Some (spec_target_signed bits).
+Proof. exact target_signed_exact_proof. Qed.
+
+(* --- sequences of reader calls on ONE Block object (Block.parse / parse_bytes / parse_bytesio with
+       parse_transactions and limit, then any order and repetition of parse_transactions(k), parse_transaction(),
+       parse_transactions_dict(), parse_transaction_dict(), serialize()): the object is a cursor over the block's own
+       list of transactions.  [spec_brun] is that cursor, defined on the protocol-level block without any bytes;
+       [embed] is how the object holds the cursor's state (stream position = the serialization of the transactions
+       not yet consumed) --- *)
+Theorem block_reader_session_exact : forall b ptx limit ops,
+  block_ok b ->
+  lib_bsession (spec_block_ser b) ptx limit ops =
+  Some (embed b (spec_open b ptx limit), lift_run b (spec_brun b (spec_open b ptx limit) ops)).
+Proof. exact block_reader_session_exact_proof. Qed.
+
+(* without parse_transaction_dict: no call fails, and after every call Block.transactions is exactly the first
+   [ss_pos] transactions of the block, each once, in order *)
+Theorem block_reader_delivers_prefix : forall b ptx limit ops,
+  dict_one_free ops ->
+  Forall (fun r => exists s out, r = Some (s, out) /\ prefix_state b s)
+         (spec_brun b (spec_open b ptx limit) ops).
+Proof. exact block_reader_delivers_prefix_proof. Qed.
+
+(* ... serialize() then gives the input bytes once every transaction was delivered, ValueError before *)
+Theorem block_reader_serialize_complete : forall b s,
+  prefix_state b s ->
+  spec_bstep b s BSer =
+  Some (s, OSer (if (ss_pos s =? length (b_txs b))%nat && negb (length (b_txs b) =? 0)%nat
+                 then Some (spec_block_ser b) else None)).
+Proof. exact serialize_prefix_proof. Qed.
+
+(* ... and parse_transactions_dict() lists id and bytes of the transactions not yet delivered, without consuming *)
+Theorem dict_reader_lists_rest : forall b s,
+  prefix_state b s -> (ss_pos s < length (b_txs b))%nat ->
+  spec_bstep b s BDictAll = Some (s, ODicts (map dict_of (skipn (ss_pos s) (b_txs b)))).
+Proof. exact dict_reader_lists_rest_proof. Qed.
+
+(* with parse_transaction_dict (which consumes one transaction without adding an object): Block.transactions is a
+   selection, in block order and each at most once, of the transactions consumed so far *)
+Theorem block_reader_selection : forall b ptx limit ops,
+  Forall (fun r => match r with Some (s', _) => selection_state b s' | None => True end)
+         (spec_brun b (spec_open b ptx limit) ops).
+Proof. exact block_reader_selection_proof. Qed.
+
+(* the single-call reader of the older theorems is the opening call of a session *)
+Theorem block_parse_is_open : forall l,
+  lib_block_open l true 0 = match lib_block_parse l with Some lb => Some (mk_bstate lb []) | None => None end.
+Proof. exact block_parse_is_open_proof. Qed.
+
+(* --- the script layer's refusals (Model/TxStrict.v): pushed data that imitates keys and signatures --- *)
+(* strict mode: a scriptSig / witness item with complete pushes whose signature-shaped items decode is accepted;
+   nothing is asked of key-shaped items (Key(data, strict=False)) *)
+Theorem strict_unlock_accepts : forall s cs,
+  level0_cmds s = Some cs -> sigs_decodable cs = true -> sl_unlock_refuses true s = false.
+Proof. exact strict_unlock_accepts_proof. Qed.
+
+Theorem strict_lock_accepts : forall s cs,
+  level0_cmds s = Some cs -> sigs_decodable cs = true ->
+  sl_lock_refuses true s = negb (lock_counts_ok lib_sig_ok s).
+Proof. exact strict_lock_accepts_proof. Qed.
+
+Theorem strict_clean_accepted : forall t, strict_clean t -> sl_refuses true t = false.
+Proof. exact strict_clean_accepted_proof. Qed.
+
+(* strict=False: only the count check of a bare-multisig output script refuses *)
+Theorem lenient_refusal : forall t,
+  sl_refuses false t = existsb (fun o => negb (lock_counts_ok sig_any (to_script o))) (tx_outs t).
+Proof. exact lenient_refusal_proof. Qed.
+
+(* the byte-level round trip carried through the script layer, either mode *)
+Theorem lib_roundtrip_script_layer : forall strict t,
+  wf_tx t -> quirk_free t -> sl_refuses strict t = false ->
+  exists t', lib_parse_sl strict (spec_ser t) = Some t' /\ lib_raw t' = Some (spec_ser t) /\ l_txid t' = spec_txid t.
+Proof. exact lib_roundtrip_script_layer_proof. Qed.
 
 (* --- non-vacuity: concrete transactions meeting every hypothesis --- *)
 Definition p11 : bytes := repeat x11 32.
@@ -159,6 +237,100 @@ Example target_sign_bit_refuted :
   lib_target (be_bytes 4 75497472) = Some 2147483648 /\ spec_target 75497472 = 0.
 Proof. split; vm_compute; reflexivity. Qed.
 
+(* target: sign bit on a non-zero mantissa: SetCompact's number is negative, the library answers the 24-bit
+   coefficient as a positive target (known finding target_outside_domain) *)
+Example target_negative_refuted :
+  lib_target (be_bytes 4 478216191) = Some (8454143 * 2 ^ 200) /\ spec_target_signed 478216191 = - (65535 * 2 ^ 200).
+Proof. split; vm_compute; reflexivity. Qed.
+
+(* --- sessions: a concrete block meeting block_ok, and one session evaluated on its bytes --- *)
+Definition blk2 : block :=
+  mk_block (mk_header 2 (repeat x01 32) (repeat x02 32) 1400000000 486604799 12345) [t_legacy; t_segwit; t_legacy].
+
+Example blk2_ok : block_ok blk2 /\ dict_one_free [BDictAll; BTxs 1; BDictAll; BTxs 0; BSer].
+Proof.
+  destruct t_legacy_in_domain as (Wl & Ql & _). destruct t_segwit_in_domain as (Ws & Qs).
+  split.
+  - split; [|split; [|split; [|split]]].
+    + unfold wf_header, blk2. cbn [b_hdr h_version h_prev h_merkle h_time h_bits h_nonce].
+      repeat split; try reflexivity; lia.
+    + repeat split; vm_compute; reflexivity.
+    + unfold len_ok. cbn. lia.
+    + unfold blk2. cbn [b_txs]. repeat (apply Forall_cons; [assumption|]). apply Forall_nil.
+    + unfold blk2. cbn [b_txs]. repeat (apply Forall_cons; [assumption|]). apply Forall_nil.
+  - repeat (apply Forall_cons; [exact I|]). apply Forall_nil.
+Qed.
+
+(* limit 1, dictionary reader, one more object, dictionary reader, the rest, serialize: the sequence a reader that
+   rewinds instead of restoring the position gets wrong (evaluated on the cursor; the library side is equal to it by
+   block_reader_session_exact) *)
+Example blk2_session :
+  exists s1 s2 s3,
+    spec_brun blk2 (spec_open blk2 true 1) [BDictAll; BTxs 1; BDictAll; BTxs 0; BSer] =
+    [Some (s1, ODicts [dict_of t_segwit; dict_of t_legacy]); Some (s2, OOk);
+     Some (s2, ODicts [dict_of t_legacy]); Some (s3, OOk); Some (s3, OSer (Some (spec_block_ser blk2)))] /\
+    ss_objs s1 = [t_legacy] /\ ss_objs s2 = [t_legacy; t_segwit] /\ ss_objs s3 = b_txs blk2.
+Proof. do 3 eexists. split; [reflexivity|]. repeat split. Qed.
+
+(* parse_transaction_dict consumes a transaction without adding an object: the block can no longer be serialized *)
+Example dict_one_skips_refuted :
+  exists s, spec_brun blk2 (spec_open blk2 false 0) [BDictOne; BTxs 2; BSer] =
+            [Some (mk_sstate 1 [], ODict (Some (dict_of t_legacy))); Some (s, OOk); Some (s, OSer None)] /\
+            ss_objs s = [t_segwit; t_legacy] /\ ss_pos s = 3%nat.
+Proof. eexists. split; [reflexivity|]. split; reflexivity. Qed.
+
+(* a read past the last transaction is outside the model *)
+Example read_past_end_refuted :
+  spec_brun blk2 (spec_open blk2 false 0) [BDictOne; BTxs 0] = [Some (mk_sstate 1 [], ODict (Some (dict_of t_legacy))); None].
+Proof. reflexivity. Qed.
+
+(* --- shaped push data --- *)
+Definition sig71 : bytes :=
+  [x30; x44; x02; x20] ++ repeat x11 32 ++ [x02; x20] ++ repeat x22 32 ++ [x01].
+Definition key_off_curve : bytes := x02 :: repeat x00 31 ++ [x05].       (* x = 5: 132 is not a square mod p *)
+Definition junk30 : bytes := x30 :: repeat x07 70.
+
+(* P2PKH scriptSig <sig> <02 00..05>, P2WPKH witness [sig, same key], bare 1-of-2 multisig output with that key:
+   every hypothesis of strict_clean_accepted holds, the key is not a curve point *)
+Definition t_offcurve : tx :=
+  mk_tx 2 [mk_txin p11 0 ([x47] ++ sig71 ++ [x21] ++ key_off_curve) 4294967295 [];
+           mk_txin p11 1 [] 4294967293 [sig71; key_off_curve]]
+        [mk_txout 7800 ([x51; x21] ++ [x02] ++ repeat x11 32 ++ [x21] ++ key_off_curve ++ [x52; xae]); mk_txout 1 pkh]
+        0 true.
+
+Example off_curve_key_accepted :
+  sl_refuses true t_offcurve = false /\ sl_refuses false t_offcurve = false /\ lib_sig_ok sig71 = true.
+Proof. split; [|split]; vm_compute; reflexivity. Qed.
+
+(* known finding strict_refuses_signature_shaped: 71 bytes starting 0x30 behind OP_RETURN; strict refuses, strict=False
+   does not; the transaction is well-formed and outside every byte-level class *)
+Definition t_junk30 : tx :=
+  mk_tx 1 [mk_txin p11 0 [] 4294967295 []] [mk_txout 0 ([x6a; x47] ++ junk30); mk_txout 5000 pkh] 0 false.
+
+Example strict_refuses_signature_shaped_refuted :
+  sl_refuses true t_junk30 = true /\ sl_refuses false t_junk30 = false /\ wf_tx t_junk30 /\ quirk_free t_junk30.
+Proof.
+  split; [vm_compute; reflexivity|]. split; [vm_compute; reflexivity|]. split.
+  - unfold wf_tx, t_junk30. cbn [tx_version tx_ins tx_outs tx_locktime tx_segwit].
+    repeat split; try (cbn; lia); try discriminate; try reflexivity.
+    + repeat constructor; cbn; lia.
+    + repeat constructor; cbn; lia.
+  - repeat split; try discriminate; repeat constructor.
+Qed.
+
+(* known finding multisig_count_mismatch: OP_1 <key> OP_2 OP_CHECKMULTISIG as an output script is refused in both modes *)
+Definition t_ms_mismatch : tx :=
+  mk_tx 1 [mk_txin p11 0 [] 4294967295 []]
+        [mk_txout 1000 ([x51; x21] ++ [x02] ++ repeat x11 32 ++ [x52; xae])] 0 false.
+
+Example multisig_count_mismatch_refuted :
+  sl_refuses false t_ms_mismatch = true /\ sl_refuses true t_ms_mismatch = true /\
+  exists t' r, lib_parse_body (spec_ser t_ms_mismatch) = Some (t', r) /\ lib_raw t' = Some (spec_ser t_ms_mismatch).
+Proof.
+  split; [vm_compute; reflexivity|]. split; [vm_compute; reflexivity|].
+  eexists. eexists. split; vm_compute; reflexivity.
+Qed.
+
 Example target_genesis : lib_target (be_bytes 4 486604799) = Some (65535 * 2 ^ 208).
 Proof. vm_compute. reflexivity. Qed.
 
@@ -172,3 +344,15 @@ Print Assumptions api_bytes_read_back.
 Print Assumptions spec_block_codec.
 Print Assumptions header_codec.
 Print Assumptions target_exact.
+Print Assumptions target_signed_exact.
+Print Assumptions block_reader_session_exact.
+Print Assumptions block_reader_delivers_prefix.
+Print Assumptions block_reader_serialize_complete.
+Print Assumptions dict_reader_lists_rest.
+Print Assumptions block_reader_selection.
+Print Assumptions block_parse_is_open.
+Print Assumptions strict_unlock_accepts.
+Print Assumptions strict_lock_accepts.
+Print Assumptions strict_clean_accepted.
+Print Assumptions lenient_refusal.
+Print Assumptions lib_roundtrip_script_layer.
